@@ -5,7 +5,7 @@ import ast
 
 from ..core import AnalysisError, norm
 from .. import symx, spec, aud
-from ..symx import Tx, E, S, fmt_cond
+from ..symx import Tx, E, S, fmt_cond, c_and, c_or, c_not, cond_atoms, eval_cond, rows
 from ..astutil import walk_local, stores, parent, ancestors, attr_stores, dominates_structurally
 from ..cfg import paths, whole_collection
 
@@ -337,19 +337,39 @@ def r3(chk):
            "that same assertion: finite estimate <=> assertion present", node=fb, strength="N")
     # manage_node: a leaf with no way to prune it reports 'audit not possible' before any insertion
     mn = chk.fn(RU, "manage_node")
-    ok = False
-    top = [s for s in mn.body if isinstance(s, ast.If)]
-    if top and norm(top[0].test) in ("notnewn.expandable",):
-        first = top[0].body[0] if top[0].body else None
-        if isinstance(first, ast.If):
-            c = Tx().cond(first.test)
-            want = spec.cond_term("newn.estimate == np.inf and newn.best_ancestor.estimate == np.inf")
-            r = [x for x in first.body if isinstance(x, ast.Return)]
-            ok = aud.cond_equiv(c, want)[0] and len(r) == 1 and isinstance(r[0].value, ast.Tuple) and norm(r[0].value.elts[0]) == "True" \
-                and not [x for x in ast.walk(first) if isinstance(x, ast.Call) and "insert_node" in norm(x.func)]
+    # by paths, whatever the nesting (if/else or guard clauses): on every path that a leaf with two infinite estimates can take,
+    # the result reports "audit not possible" and nothing was put into the frontier
+    from ..cfg import paths as _paths
+    want = c_and(c_not(spec.cond_term("newn.expandable")), spec.cond_term("newn.estimate == np.inf and newn.best_ancestor.estimate == np.inf"))
+    n_scope, bad = 0, []
+    for p_ in _paths([x for x in mn.body if not (isinstance(x, ast.Expr) and isinstance(x.value, ast.Constant))]):
+        conds = []
+        for e in p_.events:
+            if e[0] == "test":
+                try:
+                    c = Tx().cond(e[1])
+                except symx.Unsupported:
+                    c = ("atom", "opaque:" + norm(e[1]))
+                conds.append(c if e[2] else c_not(c))
+        pc = c_and(*conds) if conds else True
+        both = c_and(pc, want)
+        atoms = cond_atoms(both) if both not in (True, False) else set()
+        if not any(eval_cond(both, row) for row in rows(atoms)):
+            continue
+        # the path's tests that mention the node decide membership; paths that only differ in `log` all count
+        n_scope += 1
+        stm = [e[1] for e in p_.events if e[0] == "stmt"]
+        inserted = [x for st_ in stm if not isinstance(st_, ast.Return) for x in ast.walk(st_) if isinstance(x, ast.Call) and isinstance(x.func, ast.Attribute)
+                    and x.func.attr in ("insert_node", "replace_descendents")]
+        ret = [st_ for st_ in stm if isinstance(st_, ast.Return)]
+        good = p_.exit == "return" and ret and isinstance(ret[-1].value, ast.Tuple) and ret[-1].value.elts and norm(ret[-1].value.elts[0]) == "True" \
+            and not inserted
+        if not good:
+            bad.append(f"path via {[('' if e[2] else 'not ') + norm(e[1])[:40] for e in p_.events if e[0] == 'test']}")
+    ok = n_scope >= 1 and not bad
     chk.ob("C04.R3", f"{RU}:manage_node", "unprunable-leaf-reports-impossible", ok,
            "a leaf whose own estimate and best ancestor's estimate are both infinite reports 'audit not possible' before anything is "
-           "inserted into the frontier", node=mn, strength="N")
+           "inserted into the frontier", node=mn, strength="N", paths_in_scope=n_scope, problems=bad)
 
 
 def r4(chk):
